@@ -66,7 +66,9 @@ def helper_oracle(res: Result, rng: random.Random, fails: list, n: int):
             with_sid = rng.random() < 0.75             # (a request without Session-Id: the answer has none either)
             avps = [gen.rfc_wire(263, 0, 0x40, sid)] if with_sid else []
             # 0..3 Proxy-Info AVPs (a chain of proxies): the answer carries them all, in the same order (RFC 6733 6.2)
-            pis = [gen.rfc_wire(280, 0, 0x40, b"proxy%d.host" % k) + gen.rfc_wire(33, 0, 0x40, b"st%d" % k)
+            # (the proxy named in an entry may be anybody: another proxy, the sender, the answering node itself)
+            pis = [gen.rfc_wire(280, 0, 0x40, rng.choice([b"proxy%d.host" % k, b"proxy%d.host" % k, b"verif.node.example", b"peer.host",
+                                                           b"VERIF.NODE.EXAMPLE", b""])) + gen.rfc_wire(33, 0, 0x40, b"st%d" % k)
                    for k in range(rng.choice([0, 0, 1, 1, 2, 3]))]
             with_pi = bool(pis)
             for pi in pis:
